@@ -9,7 +9,8 @@ RULE = (
     "cases are (a) microsecond instants u in [0, 2100-01-01): boundary set "
     "enumerated completely (4 anchor instants x 6 fractions x +-2us "
     "neighbourhoods, every second boundary of the first 10^4 us after the "
-    "epoch), the rest drawn by Hypothesis with a bias to second/minute/day "
+    "epoch; the last microsecond before 8 anchor seconds in 7 ns steps), the "
+    "rest drawn by Hypothesis with a bias to second/minute/day "
     "boundaries; (b) pairs of arbitrary nanosecond instants a<b. Oracle = "
     "integer arithmetic on datetime+timedelta. Non-trivial: the instant has a "
     "non-zero sub-second fraction (pairs: either has). Distinct by the "
@@ -149,6 +150,29 @@ def run_shard(ctx):
         ctx.record(case, nt, [case["kind"]])
         run_case(case)
 
+    if ctx.shard == 1 % ctx.nshards:
+        # sub-microsecond neighbourhood of second boundaries: the string must
+        # stay a fixed-width timestamp within 1 us of the input and ordered
+        anchors = [0, 1, 59, 86399, 951782400, 1700000000, 2147483647,
+                   4102444799 - 1]
+        for sec in anchors:
+            base = sec * 10**9
+            offs = sorted(set(list(range(999_999_000, 1_000_000_000, 7))
+                              + [999_999_404, 999_999_499, 999_999_500,
+                                 999_999_501, 999_999_880, 999_999_999,
+                                 499_999_499, 499_999_500, 499_999_501]))
+            prev = None
+            for o in offs:
+                x = base + o
+                case = {"kind": "pair", "a": prev if prev is not None else x,
+                        "b": x}
+                prev = x
+                ctx.count("ns_boundary_enumerated")
+                try:
+                    fn(case)
+                except Violation as v:
+                    ctx.violation(case, str(v))
+                    return
     if ctx.shard == 0:
         for u in boundary_us():
             case = {"kind": "us", "us": u}
@@ -172,10 +196,16 @@ def run_shard(ctx):
     ns = st.integers(0, MAX_US * 1000 - 1)
     near = st.builds(lambda a, d: (a, min(MAX_US * 1000 - 1, a + d)), ns,
                      st.integers(1, 3000))
+    # just below a second boundary, sub-microsecond resolution
+    edge = st.builds(lambda sec, d, e: (max(0, sec * 10**9 - d),
+                                        max(0, sec * 10**9 - d) + e),
+                     st.integers(1, MAX_US // 10**6 - 1),
+                     st.integers(1, 1500), st.integers(0, 1500))
     cases = st.one_of(
         st.builds(lambda u: {"kind": "us", "us": u}, us),
         st.builds(lambda a, b: {"kind": "pair", "a": min(a, b),
                                 "b": max(a, b)}, ns, ns),
         st.builds(lambda p: {"kind": "pair", "a": p[0], "b": p[1]}, near),
+        st.builds(lambda p: {"kind": "pair", "a": p[0], "b": p[1]}, edge),
     )
     ctx.run_given(cases, fn, n, shrinker=shrinker)
